@@ -239,13 +239,14 @@ pub fn address_block(rng: &mut Rng, fam: u8) -> Vec<u8> {
         0 => {}
         1 => v.iter_mut().for_each(|b| *b = 0xFF),
         _ => {
-            // a random permutation slice of 1..=255: all bytes distinct for n <= 255
-            let mut perm: Vec<u8> = (1..=255).collect();
+            // a random permutation of 0..=255: all bytes distinct for n <= 256, and a NUL byte
+            // followed by non-zero bytes shows up in most Unix blocks
+            let mut perm: Vec<u8> = (0..=255).collect();
             for i in (1..perm.len()).rev() {
                 perm.swap(i, rng.below(i as u64 + 1) as usize);
             }
             for (i, b) in v.iter_mut().enumerate() {
-                *b = perm[i % 255];
+                *b = perm[i % 256];
             }
         }
     }
